@@ -83,37 +83,106 @@ func tupleAlphabet(thorough bool) [][]tuplev {
 	return tupleLists(single, pair, conds, pairConds, thorough)
 }
 
-func checkComps(thorough, batch bool) []component {
-	tl := tuplesComp("contextualTuples", tupleAlphabet(thorough))
+// sysCtx wraps every systematic value v as the context {"x": v}.
+func sysCtx(thorough bool) (cs []ctxv, nSmall int) {
+	vs, nSmall := sysValues(thorough)
+	for _, v := range vs {
+		cs = append(cs, ctxv{fields: []kv{f("x", v)}})
+	}
+	return cs, nSmall
+}
+
+// sysTuples: one contextual tuple t whose condition context is {"x": v}, for every systematic value v.
+func sysTuples(t tuplev, condName string, thorough bool) (ls [][]tuplev) {
+	cs, _ := sysCtx(thorough)
+	for _, c := range cs {
+		x := t
+		x.cond = &condv{name: condName, ctx: c}
+		ls = append(ls, []tuplev{x})
+	}
+	return
+}
+
+// members are immutable once built: the systematic ones are shared between the families that use them.
+var memberCache = map[string][]member{}
+
+func sysCtxMembers(thorough bool) []member {
+	k := fmt.Sprint("ctx", thorough)
+	if m, ok := memberCache[k]; ok {
+		return m
+	}
+	cs, _ := sysCtx(thorough)
+	m := ctxComp("context", cs).M
+	memberCache[k] = m
+	return m
+}
+
+func sysTupleMembers(t tuplev, condName string, thorough bool) []member {
+	k := fmt.Sprint("tuple", t.o, t.r, t.u, condName, thorough)
+	if m, ok := memberCache[k]; ok {
+		return m
+	}
+	m := tuplesComp("contextualTuples", sysTuples(t, condName, thorough)).M
+	memberCache[k] = m
+	return m
+}
+
+func rangeN(from, to int) []int {
+	o := make([]int, 0, to-from)
+	for i := from; i < to; i++ {
+		o = append(o, i)
+	}
+	return o
+}
+
+// ctxLayout: members [0,oldCtx) / [0,oldT) are the hand-picked alphabets, the rest the systematic ones.
+type ctxLayout struct{ oldCtx, oldT, nSmall, nCtx, nT int }
+
+func checkComps(thorough, batch bool) ([]component, ctxLayout) {
+	old := ctxAlphabet(thorough)
+	sys, nSmall := sysCtx(thorough)
+	oldT := tupleAlphabet(thorough)
+	tl := tuplesComp("contextualTuples", oldT)
+	tl.M = append(tl.M, sysTupleMembers(tuplev{o: "d:1", r: "r", u: "u:a"}, "c", thorough)...)
+	lay := ctxLayout{oldCtx: len(old), oldT: len(oldT), nSmall: nSmall, nCtx: len(old) + len(sys), nT: len(tl.M)}
 	if batch {
 		empty := tl.M[0]
 		tl.M = append(tl.M, member{V: nilTuplesMsg{}, Fine: "nil-message", Coarse: empty.Coarse, Tricky: true, Show: "<ContextualTuples message nil>"})
 	}
-	return []component{strComp("store", sigma), strComp("model", sigma), strComp("object", sigma), strComp("relation", sigma), strComp("user", sigma),
-		ctxComp("context", ctxAlphabet(thorough)), tl}
+	cc := ctxComp("context", old)
+	cc.M = append(cc.M, sysCtxMembers(thorough)...)
+	return []component{strComp("store", sigma), strComp("model", sigma), strComp("object", sigma), strComp("relation", sigma), strComp("user", sigma), cc, tl}, lay
 }
 
-func checkSlices(cs []component, thorough bool) [][][]int {
+func checkSlices(cs []component, lay ctxLayout, thorough, batch bool) [][][]int {
 	nA := 6
 	if thorough {
 		nA = 13
 	}
 	z := []int{0}
+	oldCtx, oldT := firstN(lay.oldCtx), firstN(lay.oldT)
+	if batch {
+		oldT = append(oldT, len(cs[6].M)-1) // the nil ContextualTuples message
+	}
 	sl := [][][]int{
 		{firstN(nA), firstN(nA), firstN(nA), firstN(nA), firstN(nA), z, z},
-		{z, z, z, z, z, all(cs[5]), all(cs[6])},
-		{firstN(3), firstN(2), z, z, firstN(3), capN(12, cs[5]), capN(12, cs[6])},
+		{z, z, z, z, z, oldCtx, oldT},
+		{firstN(3), firstN(2), z, z, firstN(3), firstN(12), firstN(12)},
+		// systematic values: as request context, as condition context of a contextual tuple, and (small ones) as both
+		{z, z, z, z, z, rangeN(lay.oldCtx, lay.nCtx), z},
+		{z, z, z, z, z, z, rangeN(lay.oldT, lay.nT)},
+		{z, z, z, z, z, rangeN(lay.oldCtx, lay.oldCtx+lay.nSmall), rangeN(lay.oldT, lay.oldT+lay.nSmall)},
 	}
 	if thorough {
-		sl = append(sl, [][]int{all(cs[0]), all(cs[1]), z, z, z, capN(10, cs[5]), capN(10, cs[6])})
-		sl = append(sl, [][]int{z, z, all(cs[2]), all(cs[3]), all(cs[4]), z, capN(3, cs[6])})
+		sl = append(sl, [][]int{all(cs[0]), all(cs[1]), z, z, z, firstN(10), firstN(10)})
+		sl = append(sl, [][]int{z, z, all(cs[2]), all(cs[3]), all(cs[4]), z, firstN(3)})
 	}
 	return sl
 }
 
 func subFamily(thorough bool) *family {
-	cs := checkComps(thorough, false)
-	return &family{Name: "CheckCacheKey(InvariantCacheKey)", Group: "CheckCacheKey", Comps: cs, Slices: checkSlices(cs, thorough),
+	cs, lay := checkComps(thorough, false)
+	return &family{Name: "CheckCacheKey(InvariantCacheKey)", Group: "CheckCacheKey", Comps: cs, Slices: checkSlices(cs, lay, thorough, false),
 		Key: func(v []any) ([]byte, error) {
 			inv := storage.InvariantCacheKey(v[0].(string), v[1].(string), v[5].(*structpb.Struct), v[6].([]*openfgav1.TupleKey)...)
 			k := storage.CheckCacheKey(v[0].(string), v[2].(string), v[3].(string), v[4].(string), inv)
@@ -122,8 +191,8 @@ func subFamily(thorough bool) *family {
 }
 
 func batchFamily(thorough bool) *family {
-	cs := checkComps(thorough, true)
-	return &family{Name: "batch-check de-duplication key", Group: "CheckCacheKey", Comps: cs, Slices: checkSlices(cs, thorough),
+	cs, lay := checkComps(thorough, true)
+	return &family{Name: "batch-check de-duplication key", Group: "CheckCacheKey", Comps: cs, Slices: checkSlices(cs, lay, thorough, true),
 		Key: func(v []any) ([]byte, error) {
 			item := &openfgav1.BatchCheckItem{
 				TupleKey:      &openfgav1.CheckRequestTupleKey{Object: v[2].(string), Relation: v[3].(string), User: v[4].(string)},
@@ -295,7 +364,12 @@ func edgeFamily(thorough bool) (*family, error) {
 	t1, t2, t3 := tuplev{"doc:1", "r1", "user:a", nil}, tuplev{"doc:1", "parent", "doc:2", nil}, tuplev{"group:1", "member", "user:a", nil}
 	t1c, t1d := tuplev{"doc:1", "r1", "user:a", cx(one)}, tuplev{"doc:1", "r1", "user:a", cx([]kv{f("x", jS("1"))})}
 	lists := [][]tuplev{{}, {t1}, {t1c}, {t1d}, {t1, t2}, {t2, t1}, {t3}, {t2, t3}, {t1c, t3}, {t3, t1c}}
-	cs := []component{strComp("store", stores), ec, strComp("object", objects), strComp("relation", rels), strComp("user", users), ctxComp("context", ctxs), tuplesComp("contextualTuples", lists)}
+	// systematic context values (quick set in both tiers): as request context and as the cx context of a model-valid contextual tuple
+	oldCtx, oldT := len(ctxs), len(lists)
+	cc, tc := ctxComp("context", ctxs), tuplesComp("contextualTuples", lists)
+	cc.M = append(cc.M, sysCtxMembers(false)...)
+	tc.M = append(tc.M, sysTupleMembers(tuplev{o: "doc:1", r: "r1", u: "user:a"}, "cx", false)...)
+	cs := []component{strComp("store", stores), ec, strComp("object", objects), strComp("relation", rels), strComp("user", users), cc, tc}
 	fam := &family{Name: "EdgeCacheKey", Comps: cs, AnswerIrrelevant: map[int]bool{3: true},
 		Key: func(v []any) ([]byte, error) {
 			ge := v[1].(gedge)
@@ -307,12 +381,16 @@ func edgeFamily(thorough bool) (*family, error) {
 			}
 			return append([]byte(nil), check.EdgeCacheKey(req, ge.e).Bytes()...), nil
 		}}
+	c5, c6 := firstN(oldCtx), firstN(oldT)
 	if thorough {
-		fam.Slices = [][][]int{{all(cs[0]), all(cs[1]), capN(5, cs[2]), all(cs[3]), all(cs[4]), all(cs[5]), capN(6, cs[6])},
-			{capN(2, cs[0]), all(cs[1]), all(cs[2]), all(cs[3]), capN(2, cs[4]), capN(3, cs[5]), all(cs[6])}}
+		fam.Slices = [][][]int{{all(cs[0]), all(cs[1]), capN(5, cs[2]), all(cs[3]), all(cs[4]), c5, capN(6, cs[6])},
+			{capN(2, cs[0]), all(cs[1]), all(cs[2]), all(cs[3]), capN(2, cs[4]), capN(3, cs[5]), c6}}
 	} else {
 		fam.Slices = [][][]int{{capN(4, cs[0]), all(cs[1]), capN(3, cs[2]), all(cs[3]), capN(2, cs[4]), capN(3, cs[5]), capN(3, cs[6])},
-			{capN(1, cs[0]), all(cs[1]), capN(1, cs[2]), capN(1, cs[3]), capN(1, cs[4]), all(cs[5]), all(cs[6])}}
+			{capN(1, cs[0]), all(cs[1]), capN(1, cs[2]), capN(1, cs[3]), capN(1, cs[4]), c5, c6}}
 	}
+	fam.Slices = append(fam.Slices,
+		[][]int{{0}, {0}, {0}, {0}, {0}, rangeN(oldCtx, len(cc.M)), {0}},
+		[][]int{{0}, {0}, {0}, {0}, {0}, {0}, rangeN(oldT, len(tc.M))})
 	return fam, nil
 }
